@@ -212,7 +212,7 @@ func c47pNewTally() *c47pTally {
 func (t *c47pTally) fail(c c47pCase, got string, want bool) {
 	k := c47pClass(c)
 	if k == "" {
-		k = fmt.Sprintf("shape:kind=%s case_insensitive=%v", c.Spec.Kind, c.Spec.CI)
+		k = fmt.Sprintf("shape:kind=%s", c.Spec.Kind)
 	}
 	b := t.fails[k]
 	if b == nil {
